@@ -75,9 +75,13 @@ func parseClusterNodes(data string) (map[string]*instance, error) {
 		if inst.MasterID == "" {
 			continue
 		}
-		master := insts[inst.MasterID]
-		master.Replicas = append(master.Replicas, inst)
 		delete(insts, id)
+		master, ok := insts[inst.MasterID]
+		if !ok {
+			// the master is not listed, ignore the replica
+			continue
+		}
+		master.Replicas = append(master.Replicas, inst)
 	}
 	return insts, nil
 }
@@ -103,6 +107,9 @@ func parseClusterNodesSlot(segements []string) ([]int, error) {
 			}
 			end, err := strconv.Atoi(parts[1])
 			if err != nil {
+				return nil, errInvalidClusterNodes
+			}
+			if start < 0 || end >= slotNum || start > end {
 				return nil, errInvalidClusterNodes
 			}
 			for i := start; i <= end; i++ {
